@@ -91,7 +91,14 @@ func generate(prop, tier string, rng *Rng) []Case {
 		if os.Getenv("HX_RT") != "" {
 			return genLimRT(tier, rng)
 		}
-		return genLim(tier, rng, prop)
+		cs := genLim(tier, rng, prop)
+		if prop == "C17" {
+			// the rewrite of the access log when it has grown past its size: the records of the flush that triggers it must be
+			// in the rewritten log (a restarted limiter reads the entry's last use from there) - the crash family's operation,
+			// run to its end
+			cs = append(cs, &crashCase{Op: "atimes-rewrite"})
+		}
+		return cs
 	case "C05":
 		cs := genC05(tier, rng)
 		// complete, well-formed answers also where recompression, the cache and byte ranges meet (the aecache family)
